@@ -133,7 +133,7 @@ def run_case(ctx, kind_, idx):
                                                                   "case": info})
                     return
                 step = (x[-1] - x[0]) / (n - 1)
-                if np.max(np.abs(np.diff(gx) - step)) > (1e-9 + tol.cond_x(gx)) * abs(step) + 4 * tol.EPS * np.max(np.abs(x)):
+                if not np.max(np.abs(np.diff(gx) - step)) <= (1e-9 + tol.cond_x(gx)) * abs(step) + 4 * tol.EPS * np.max(np.abs(x)):
                     ctx.violation("weaver_grid_not_equally_spaced", cid, {"case": info})
                     return
                 new_x, got = gx, gy
@@ -216,7 +216,7 @@ def run_case(ctx, kind_, idx):
                     t = (float(q) - xl[i]) / (xl[i + 1] - xl[i])
                     want = float(y[i]) + (float(y[i + 1]) - float(y[i])) * t
                     sc = max(abs(float(y[i])), abs(float(y[i + 1])), 1e-300)
-                    if abs(float(got[j]) - want) > (1e-9 + tol.cond_x(x)) * sc:
+                    if not abs(float(got[j]) - want) <= (1e-9 + tol.cond_x(x)) * sc:
                         ctx.violation("linear_value", cid, {"at": float(q), "got": float(got[j]), "want": want,
                                                             "case": info})
                         return
@@ -226,7 +226,7 @@ def run_case(ctx, kind_, idx):
                 sc = abs(a) * (x[-1] - x[0]) + abs(b) + 1e-300
                 e = float(np.max(np.abs(got[inside] - want[inside]) / sc)) if np.any(inside) else 0.0
                 ctx.track_worst("affine_rel", e / max(1.0, ratio))
-                if e > (srel if method != "linear" else 1e-9 + tol.cond_x(x)):
+                if not e <= (srel if method != "linear" else 1e-9 + tol.cond_x(x)):
                     ctx.violation("affine_not_reproduced", cid, {"err": e, "case": info})
                     return
             if np.any(inside & ~np.isin(new_x, x)):
